@@ -212,6 +212,52 @@ def run(ck, F, tier):
                 why = "every round pushes modulate_bits of the next three bits of the codeword in order (3 next() per round): %r" % (pushes[0].args[1],)
         except Unsupported as e:
             why = "modulate: unreadable loop: %s" % e
+    if not ok and len(col) >= 2:
+        # several producers (a fast path for contiguous input beside the general one): every one of them, on its own path, yields
+        # symbol i = modulate_bits(cw[3i], cw[3i+1], cw[3i+2]) - from the strided zip, or from chunks of three of a view of the codeword
+        # *in logical order* (as_slice(): Some only for a contiguous standard-order array; as_slice_memory_order() follows the strides)
+        tc = Tracer(F, r"std::iter::Iterator::collect", mode="real")
+        envc = {}
+        for pp, nm in zip(mod.params, ("self", "codeword")):
+            tc.bind(pp, var(nm), envc)
+        try:
+            rv = tc.eval(mod.value, envc)
+            CW = var("codeword")
+            AS = "ndarray::impl_methods::<impl ndarray::ArrayBase<S, D>>::"
+            logical = (app("payload0", app(AS + "as_slice", CW)), app(AS + "to_vec", CW))
+
+            def sb2(off):
+                base = ("elems", CW)
+                if off:
+                    base = ("skip", base, num(off))
+                return ("step_by", base, num(3))
+            want = ("zip", ("zip", sb2(0), ("iterdesc", sb2(1))), ("iterdesc", sb2(2)))
+            MB = MOD + "Psk8Modulator::modulate_bits"
+            bad = []
+            evs = [e for e in tc.events if e.callee.endswith("::collect")]
+            for e in evs:
+                d = e.args[0][1] if isinstance(e.args[0], tuple) and e.args[0][0] == "iterdesc" else e.args[0]
+                if not (isinstance(d, tuple) and d[0] == "map"):
+                    bad.append("a producer is not a map over the bits")
+                    continue
+                if repr(d[1]) == repr(want):
+                    v = tc.apply(d[2], [("tuple", [("tuple", [var("x0"), var("x1")]), var("x2")])])
+                    if v != app(MB, var("x0"), var("x1"), var("x2")):
+                        bad.append("strided producer maps to %r" % (v,))
+                elif d[1][0] == "chunks_exact" and d[1][2] == num(3):
+                    v = tc.apply(d[2], [var("b")])
+                    if v != app(MB, app("index", var("b"), num(0)), app("index", var("b"), num(1)), app("index", var("b"), num(2))):
+                        bad.append("chunk producer maps to %r" % (v,))
+                    if d[1][1] not in logical:
+                        bad.append("chunks are taken from %r, which is not the codeword in logical order" % (d[1][1],))
+                else:
+                    bad.append("bit iterator is %r" % (d[1][:1],))
+            rets = [e.args[0] for e in tc.events if e.callee == "<return>"] + [rv]
+            all_collect = all(isinstance(r, Poly) and single_atom(r) is not None and atom_fn(single_atom(r)).endswith("::collect") for r in rets)
+            ok = len(evs) >= 2 and not bad and all_collect
+            why = "%d producers, each symbol i = modulate_bits(cw[3i], cw[3i+1], cw[3i+2])%s" % (len(evs), (" ; but " + "; ".join(bad[:2])) if bad else "")
+        except Unsupported as e:
+            why = "modulate: unreadable producers: %s" % e
     ck.inst("M2", "psk8:bit-order-mod", ok, mod.span, why)
     dm = F.body("<%sPsk8Demodulator as %sDemodulator>::demodulate" % (MOD, MOD))
     fm = calls_to(dm.value, r"std::iter::Iterator::flat_map")
